@@ -31,6 +31,10 @@ def check(ctx, tier):
     obs += ctx.attempt(lambda c, cl: gens.check(c, cl)[0], ctx, "D-e", default=[])
     obs += ctx.attempt(lambda c, cl: count.class_iteration_agreement(c, cl)[0], ctx, "D-f", default=[])
     obs += ctx.attempt(lambda c, cl: mergetable.invariants(c, cl, which=('direction',))[0], ctx, "D-g", default=[])
+    from ..rules import profile as _profile
+    obs += ctx.attempt(lambda c, cl: _profile.tables(c, cl, ('mirror',))[0], ctx, "D-h", default=[])
+    from ..rules import profile as _profile2
+    obs += ctx.attempt(lambda c, cl: _profile2.shapes_tables(c, cl, ('mirror',))[0], ctx, "D-i", default=[])
     exceptions.apply(obs)
     return {"obs": obs, "floors": [Floor("twin pairs compared", len(tw), 18), Floor("direction-plumbing sites", n_dir, 4)],
             "explanation": "Sibling agreement (normalised AST comparison modulo a role map) of every direct/inverse pair of the profiling, "
